@@ -428,6 +428,14 @@ func (e *Env) runRPC() error {
 	if err := e.NewClient(e.Srv.Addr()); err != nil {
 		return err
 	}
+	// one registered handler, as the examples do: it takes updateShort, everything else goes to the warning channel
+	e.Client.AddCustomServerRequestHandler(func(i any) bool {
+		_, ok := i.(*telegram.UpdateShort)
+		if ok {
+			e.Srv.LogNote("handler-call", nil, 0, fmt.Sprintf("%T", i))
+		}
+		return ok
+	})
 	e.Connect(e.patience(), nil)
 	if !e.Res.Connected {
 		e.Res.Session = e.ReadSession()
@@ -555,6 +563,13 @@ func (e *Env) runRPC() error {
 		case "probe":
 			st.probeN++
 			cr := e.Call(&telegram.AccountCheckUsernameParams{Username: fmt.Sprintf("probe%d", st.probeN)}, e.stepPatience())
+			for try := 0; step.Retry && try < 40 && !cr.OK && !cr.Hung && cr.Panic == ""; try++ {
+				// the client is between two connections: a request made right now may fail with a write error; "later
+				// requests complete" is about requests after the reconnection
+				time.Sleep(5 * time.Millisecond)
+				e.Res.Notes = append(e.Res.Notes, "probe repeated after: "+cr.Err)
+				cr = e.Call(&telegram.AccountCheckUsernameParams{Username: fmt.Sprintf("probe%d", st.probeN)}, e.stepPatience())
+			}
 			cr.Tag, cr.Kind = -st.probeN, "probe"
 			if cr.Hung {
 				e.Res.Stall = inspectStall(int(st.inFlight.Load()) + 1)
@@ -563,6 +578,21 @@ func (e *Env) runRPC() error {
 			st.results = append(st.results, cr)
 			st.mu.Unlock()
 			if cr.Hung {
+				e.Res.Calls = st.snapshot()
+				e.Res.Hooks = st.dir.snapshot()
+				e.Res.Session = e.ReadSession()
+				e.Finish()
+			}
+		case "await-reconnect":
+			// after the server closed the connection: wait until the client has opened a new one (state, not time, decides:
+			// if none appears within the patience the goroutine dump tells whether the client is idle)
+			deadline := time.Now().Add(e.stepPatience())
+			for len(e.Srv.Conns()) < step.N && time.Now().Before(deadline) {
+				time.Sleep(500 * time.Microsecond)
+			}
+			if len(e.Srv.Conns()) < step.N {
+				e.Res.Notes = append(e.Res.Notes, fmt.Sprintf("step %d: no reconnection (have %d connections, want %d)", i, len(e.Srv.Conns()), step.N))
+				e.Res.Stall = inspectStall(0)
 				e.Res.Calls = st.snapshot()
 				e.Res.Hooks = st.dir.snapshot()
 				e.Res.Session = e.ReadSession()
